@@ -271,6 +271,7 @@ impl Runner {
         let ctx = GenCtx {
             down: &down,
             cut: crate::net::is_cut(),
+            signer_offline: self.ext.signer_offline,
             model: &self.model,
             cfg: &self.gen_cfg,
             n_insts: self.world.insts.len(),
@@ -598,6 +599,20 @@ impl Runner {
             }
             Op::Partition { .. } | Op::Heal { .. } | Op::NetCut
             | Op::NetRestore => "handled".into(),
+            Op::SignerOffline => {
+                self.ext.signer_offline = true;
+                "offline".into()
+            }
+            Op::SignerSession => {
+                self.ext.signer_offline = false;
+                let i = self.world.inst(0);
+                i.enter();
+                let res = i.rt().tasks().schedule(
+                    krill::server::mq::Task::SyncTrustAnchorProxySignerIfPossible,
+                    krill::server::mq::now(),
+                ).map_err(err_string);
+                Self::label(&res)
+            }
             Op::RrdpSessionReset { inst } => {
                 let i = self.world.inst(inst);
                 i.enter();
